@@ -43,8 +43,8 @@ def overflowingAdd (x y : Nat) : Nat × Bool :=
   ((x + y) % W, decide (W ≤ x + y))
 
 /-- `debug_assert!(c)`. -/
-def dassertE (c : Bool) (msg : String := "") : Except Panic Unit :=
-  if c then .ok () else .error (.assert msg)
+def dassertE (c : Bool) (_msg : String := "") : Except Panic Unit :=
+  if c then .ok () else .error (.assert "")
 
 /-- `usize::checked_add`. -/
 def checkedAdd (x y : Nat) : Option Nat := if x + y < W then some (x + y) else none
